@@ -83,6 +83,13 @@ func init() {
 			o := mixedOpts(thorough)
 			o.Faults, o.MIG = false, false
 			o.Hierarchy = 3
+			if chance(t, "faulty", 35) { // failing bind / evict API calls in the middle of a commit
+				o.Faults = true
+				if chance(t, "pressure", 50) {
+					return GenPressureScript(t, "C08", "queue-limits-pressure-faults", o)
+				}
+				return GenScript(t, "C08", "queue-limits-faults", o)
+			}
 			return GenScript(t, "C08", "queue-limits", o)
 		},
 		Oracles: func() []Oracle { return []Oracle{QueueLimitOracle{}} },
